@@ -8,7 +8,7 @@ from ..progprop import ProgramProperty, results, is_exc, init_step, Getter, have
 
 class C02(ProgramProperty):
     id = "C02"
-    theorems = []
+    theorems = ["C02_expand", "C02_pair", "C02_all", "C02_all_shape", "C02_unknown", "C02_known", "C02_is_curie", "C02_first_delimiter"]
     lean_modules = ["CuriesVerif.Properties.C02"]
     rule = ("one case = one strict converter (synonyms, '' prefix in ~15%, case variants and substrings of other "
             "prefixes, delimiters : / :: _ | -:) with 8 (prefix, identifier) pairs (known / synonym / case variant / "
